@@ -413,6 +413,75 @@ def rename_private_params(tree: ast.Module) -> ast.Module:
     return tree
 
 
+def add_logging(tree: ast.Module) -> ast.Module:
+    """a logger.debug(...) line at the start of every function body (after the docstring) of modules that have a `logger`"""
+    has_logger = any(isinstance(st, ast.Assign) and any(isinstance(t, ast.Name) and t.id == 'logger' for t in st.targets)
+                     for st in tree.body)
+    if not has_logger:
+        return tree
+    for fn in _scopes(tree):
+        if fn.name in ('__call__',) and any(isinstance(x, (ast.Yield, ast.YieldFrom)) for x in ast.walk(fn)):
+            pass
+        call = ast.Expr(ast.Call(ast.Attribute(ast.Name('logger', ast.Load()), 'debug', ast.Load()),
+                                 [ast.Constant('entering %s' % fn.name)], []))
+        k = 1 if fn.body and isinstance(fn.body[0], ast.Expr) and isinstance(fn.body[0].value, ast.Constant) \
+            and isinstance(fn.body[0].value.value, str) else 0
+        fn.body.insert(k, call)
+    return tree
+
+
+class _SwapAssign(ast.NodeTransformer):
+    """two adjacent `a = X; b = Y` (plain names, call-free right-hand sides, neither mentions the other's target) are swapped"""
+
+    @staticmethod
+    def _simple(s):
+        return isinstance(s, ast.Assign) and len(s.targets) == 1 and isinstance(s.targets[0], ast.Name) \
+            and not any(isinstance(x, (ast.Call, ast.Yield, ast.Await, ast.NamedExpr, ast.Lambda, ast.ListComp, ast.GeneratorExp,
+                                       ast.SetComp, ast.DictComp)) for x in ast.walk(s.value))
+
+    def _block(self, stmts):
+        out = list(stmts)
+        i = 0
+        while i + 1 < len(out):
+            a, b = out[i], out[i + 1]
+            if self._simple(a) and self._simple(b):
+                ta, tb = a.targets[0].id, b.targets[0].id
+                na = {x.id for x in ast.walk(a.value) if isinstance(x, ast.Name)}
+                nb = {x.id for x in ast.walk(b.value) if isinstance(x, ast.Name)}
+                if ta != tb and ta not in nb and tb not in na:
+                    out[i], out[i + 1] = b, a
+                    i += 2
+                    continue
+            i += 1
+        return out
+
+    def generic_visit(self, node):
+        super().generic_visit(node)
+        for fld in ('body', 'orelse', 'finalbody'):
+            v = getattr(node, fld, None)
+            if isinstance(v, list) and v and isinstance(v[0], ast.stmt) and not isinstance(node, (ast.Module, ast.ClassDef)):
+                setattr(node, fld, self._block(v))
+        return node
+
+
+def swap_independent_assignments(tree):
+    return _SwapAssign().visit(tree)
+
+
+class _Ann(ast.NodeTransformer):
+    def visit_AnnAssign(self, n: ast.AnnAssign):
+        self.generic_visit(n)
+        if n.value is not None and isinstance(n.target, ast.Name) and n.simple:
+            return ast.copy_location(ast.Assign([n.target], n.value), n)
+        return n
+
+
+def local_annotations_dropped(tree):
+    for fn in _scopes(tree):
+        fn.body = [_Ann().visit(st) for st in fn.body]
+    return tree
+
+
 OPERATORS: Dict[str, Callable[[ast.Module], ast.Module]] = {
     'reformat': reformat,
     'rename_locals': rename_locals,
@@ -430,6 +499,9 @@ OPERATORS: Dict[str, Callable[[ast.Module], ast.Module]] = {
     'drop_else_after_return': drop_else_after_return,
     'comprehension_to_loop': comprehension_to_loop,
     'rename_private_params': rename_private_params,
+    'add_logging': add_logging,
+    'swap_independent_assignments': swap_independent_assignments,
+    'local_annotations_dropped': local_annotations_dropped,
 }
 
 
